@@ -445,25 +445,7 @@ pub fn e7gen() -> i32 {
 
 // ---------------------------------------------------------------- one-off searches for rare events (results committed under witnesses/)
 
-fn sib_bytes(tau: usize, c_tilde: &[u8]) -> usize {
-    use sha3::digest::{ExtendableOutput, Update, XofReader};
-    let mut x = sha3::Shake256::default();
-    x.update(c_tilde);
-    let mut rd = x.finalize_xof();
-    let mut s = [0u8; 8];
-    rd.read(&mut s);
-    let mut n = 0usize;
-    for i in (256 - tau)..256 {
-        let mut j = [0u8; 1];
-        rd.read(&mut j);
-        n += 1;
-        while usize::from(j[0]) > i {
-            rd.read(&mut j);
-            n += 1;
-        }
-    }
-    n
-}
+use crate::forge::sib_bytes;
 
 /// `mc raresearch <sib|expands|ct> [tries]`
 pub fn raresearch(what: &str, tries: u64) -> i32 {
@@ -508,6 +490,53 @@ pub fn raresearch(what: &str, tries: u64) -> i32 {
                 }
             }
             std::fs::write(format!("{root}/witnesses/sample_in_ball_long.json"), serde_json::to_string_pretty(&json!({"how": "commitment hashes SHAKE256('sib-search'||set||i) whose SampleInBall squeezes the most index bytes", "witnesses": out})).unwrap()).unwrap();
+        }
+        // messages for which the zero-t1 forgery (rho = 42^32, z = small_z(9), no hints, pure mode, empty context) is a VALID
+        // signature whose commitment hash needs the most SampleInBall index bytes
+        "sibvalid" => {
+            let mut out = Vec::new();
+            for p in refmodel::ALL_PARAMS {
+                let n = if p.id == 87 { tries } else { tries / 8 };
+                let pk0 = refmodel::PkCtx::new(p, &refmodel::zero_t1_pk(p, &[0x42u8; 32]));
+                let z = crate::forge::small_z(p, 9);
+                let az = refmodel::az_of(&pk0, &z);
+                let w1e = refmodel::w1_encode(p, &refmodel::use_hint_vec(p, &vec![POLY0; p.k], &az));
+                let chunk = 1u64 << 22;
+                let mut best: Vec<(usize, u64)> = Vec::new();
+                let mut base = 0u64;
+                while base < n {
+                    let mut b: Vec<(usize, u64)> = (base..base + chunk)
+                        .into_par_iter()
+                        .map(|i| {
+                            let mut mp = vec![0u8, 0u8];
+                            mp.extend_from_slice(format!("sib-valid-{i}").as_bytes());
+                            let mu = refmodel::shake256(&[&pk0.tr, &mp], 64);
+                            let ct = refmodel::shake256(&[&mu, &w1e], p.ctilde_len());
+                            (sib_bytes(p.tau, &ct), i)
+                        })
+                        .fold(Vec::new, |mut acc: Vec<(usize, u64)>, x| {
+                            acc.push(x);
+                            if acc.len() > 64 {
+                                acc.sort_unstable_by(|a, b| b.cmp(a));
+                                acc.truncate(3);
+                            }
+                            acc
+                        })
+                        .reduce(Vec::new, |mut a, mut b| {
+                            a.append(&mut b);
+                            a
+                        });
+                    best.append(&mut b);
+                    best.sort_unstable_by(|a, b| b.cmp(a));
+                    best.truncate(3);
+                    base += chunk;
+                }
+                println!("ML-DSA-{} tau={} tries={n}: most index bytes among valid forgeries {:?}", p.id, p.tau, best);
+                for (bytes, i) in best {
+                    out.push(json!({"set": p.id, "index_bytes": bytes, "msg": format!("sib-valid-{i}")}));
+                }
+            }
+            std::fs::write(format!("{root}/witnesses/sib_valid.json"), serde_json::to_string_pretty(&json!({"how": "messages 'sib-valid-<i>' for which the zero-t1 forgery (rho = 42^32, z = small_z(9), no hints, pure mode, empty context) is a valid signature whose commitment hash makes SampleInBall squeeze the most index bytes", "witnesses": out})).unwrap()).unwrap();
         }
         // ExpandS (eta = 4): seeds whose RejBoundedPoly consumes the most bytes
         "expands" => {
